@@ -37,6 +37,9 @@ pub mod signum;
 mod wnaf;
 pub use self::wnaf::Wnaf;
 
+#[cfg(feature = "verif")]
+pub mod verif_hooks;
+
 use ff::{Field, PrimeField, PrimeFieldDecodingError, PrimeFieldRepr, ScalarEngine, SqrtField};
 use std::error::Error;
 use std::fmt;
